@@ -266,3 +266,17 @@ Theorem C18_conforming_if_data_block_is_read_as_valid : forall ftab rec ifuel td
                     adv (ts ++ [tE; tI]) s s' /\ F.ev g' = F.ev g /\ l_so lay = lo.
 Proof. exact B.conforming_ifdata_block_is_read. Qed.
 Print Assumptions C18_conforming_if_data_block_is_read_as_valid.
+
+(* ---------- a recorded finding, as the model shows it ---------- *)
+(* known finding tagged-multiplicity-not-enforced: a member declared without ( )* may occur any number of times - the content is
+   flagged valid and both items are kept.  The model reproduces it (the implementation is replayed on the same input by the check). *)
+Example C18_known_tagged_multiplicity_witness :
+  match tokenize_core 0 (bytes_of "T 1 T 2 /end IF_DATA") with
+  | TOk toks =>
+      match parse_ifdata [TTaggedStruct [Tagged (bytes_of "T") false false TUInt]] 5 (mkCtx (bytes_of "IF_DATA") O 1) (init_state toks false 1 []) with
+      | (ROk (Some (GBlock _ _ [GTaggedStruct [(_, items)]]), valid), s') => Some (valid, length items, ps_log s')
+      | _ => None
+      end
+  | _ => None
+  end = Some (true, 2%nat, []).
+Proof. vm_compute. reflexivity. Qed.
